@@ -8,6 +8,7 @@ import (
 	"pgregory.net/rapid"
 
 	"verifharness/bn"
+	"verifharness/model"
 	"verifharness/reflex"
 	"verifharness/refparse"
 	"verifharness/run"
@@ -331,6 +332,38 @@ func TestC01(t *testing.T) {
 				})
 			}
 			c.Ev.MarkExhaustive(fmt.Sprintf("every sequence of <= %d statement fragments over {if(a), else, x;, {, }, while(b), for(;;)}", max))
+		})
+		c.Sub("deep-nesting", func(s *Sub) {
+			if c.Shard != 0 {
+				return
+			}
+			P := bn.KwPrint
+			for _, d := range []int{10, 100, 254, 255, 256, 257, 300, 1000, 3000} {
+				texts := []string{
+					P + " 1 + " + strings.Repeat("(", d) + "2 * 3" + strings.Repeat(")", d) + ";\n" + P + " \"done\";\n",
+					P + " " + strings.Repeat("[", d) + "1" + strings.Repeat("]", d) + strings.Repeat("[0]", d) + ";\n",
+					"x = " + strings.Repeat("{k: ", d) + "1" + strings.Repeat("}", d) + ";\n" + P + " x" + strings.Repeat(".k", d) + ";\n",
+					bn.KwFun + " idf(v) { " + bn.KwReturn + " v; }\n" + P + " " + strings.Repeat("idf(", d) + "7" + strings.Repeat(")", d) + ";\n",
+					P + " " + strings.Repeat("-", d) + "1;\n" + P + " " + strings.Repeat("!", d) + "1;\n" + P + " " + strings.Repeat("~", d) + "1;\n",
+					bn.KwVar + " a = 0;\n" + strings.Repeat("a = ", d) + "5;\n" + P + " a;\n",
+					P + " " + strings.Repeat("1 - (", d) + "1" + strings.Repeat(")", d) + ";\n",
+					P + " " + strings.Repeat("2 ** ", d%40+1) + "1;\n",
+					bn.KwVar + " arr = [[0]];\n" + P + " arr" + strings.Repeat("[(0)]", 2) + ";\n" + P + " " + strings.Repeat("(", d) + "arr" + strings.Repeat(")", d) + "[0][0];\n",
+					strings.Repeat("{ ", d) + P + " \"deep block\";" + strings.Repeat(" }", d) + "\n",
+					strings.Repeat(bn.KwIf+" (1) ", d) + P + " \"deep if\";\n",
+				}
+				for _, tx := range texts {
+					c.c01Text(s, "deep-nesting", tx, true)
+					// and the behaviour: the deeply nested program must still print what the reference evaluator says
+					if d <= 1000 {
+						mc := c.runModelCase(s, tx, "", model.Options{MaxSteps: 400000, MaxDepth: 5000}, judgeOpts{})
+						if mc.Sig != "" && mc.Sig != "abnormal" {
+							s.Violation(mc.replay("tree"))
+						}
+					}
+				}
+			}
+			c.Ev.MarkExhaustive("11 recursive productions nested 10..3000 levels deep (tree against the reference parser, round trips, and printed result)")
 		})
 		maxToks := 5
 		if c.Thorough {
